@@ -209,11 +209,13 @@ func c11pStartProxy(t *testing.T, backends []string, ready bool, brokerHostPort 
 
 func TestVerifC11Proxy(t *testing.T) {
 	r := verifkit.Start(t, "C11", "proxy")
-	defer r.Finish("real cmd/proxy handleConnection on loopback; backend = the real broker binary built from the tree under test, run as a child process with in-memory metadata and in-memory S3. Same client, sentinel technique and oracle as the broker leg, for the proxy's own advertised table (parsed from its live ApiVersions reply): reply required for every advertised (key, version) (acks=0 produce excepted), correlation id, header shape per flexibility, body decodes with kmsg at that version and re-encodes to the same bytes; every other version in [0, codec max+2] of every key: a reply, if any, must decode at that version. Two degraded configurations (proxy not ready: no backend known; backend down: connection refused) exercise the proxy's locally built error replies; there only the replies that do arrive are judged. Against the ready proxy the reply-size sweep of the broker leg runs as well (same templates as far as the proxy advertises them, string lengths 0..1100 for the first two templates in quick / all in thorough, reply sizes 2^k-8..2^k+8 for k=5..16 (quick: k=9..16 for the other templates), 2-8 requests plus sentinel pipelined per connection, broken batches re-asked alone, a reply not followed by the sentinel's reply frame reported after a control). non-trivial = a reply with a body was received and decoded",
+	defer r.Finish("real cmd/proxy handleConnection on loopback; backend = the real broker binary built from the tree under test, run as a child process with in-memory metadata and in-memory S3. Same client, sentinel technique and oracle as the broker leg, for the proxy's own advertised table (parsed from its live ApiVersions reply): reply required for every advertised (key, version) (acks=0 produce excepted), correlation id, header shape per flexibility, body decodes with kmsg at that version and re-encodes to the same bytes; every other version in [0, codec max+2] of every key: a reply, if any, must decode at that version. Two degraded configurations (proxy not ready: no backend known; backend down: connection refused) exercise the proxy's locally built error replies; there only the replies that do arrive are judged. Against the ready proxy the reply-size sweep of the broker leg runs as well (same templates as far as the proxy advertises them, string lengths 0..1100 for the first two templates in quick / all in thorough, reply sizes 2^k-8..2^k+8 for k=5..16 (quick: k=9..16 for the other templates), 2-8 requests plus sentinel pipelined per connection, broken batches re-asked alone, a reply not followed by the sentinel's reply frame reported after a control). Request streams with requests that have no reply by protocol, same oracle plus order: on one connection 2-7 slots, each either a Produce with acks=0 at a PRNG-chosen advertised version (1-3 topics x 1-2 partitions, drawn per partition: existing / new legal / illegal topic name; partition 0 or (through the proxy) always 0; record set valid, shorter than a record-batch header, random bytes, truncated batch, null, or a valid batch with batchLength / magic / lastOffsetDelta / record count overwritten), in half of the cases followed by its acked twin (the same topics, partitions and record sets with acks=1/-1, whose reply shows which of them the server accepts and which it rejects), or an advertised request of any API (JoinGroup/SyncGroup excepted; 30% acked Produce), at least one reply-expecting request after the last acks=0 produce, then the sentinel; correlation ids are unique within the stream; the stream is written pipelined or with one request in flight (an acks=0 produce is followed at once by the next request), several streams per connection. The connection is read the way a client does: one frame per reply-expecting request, in order. Each frame must begin with the correlation id of the request whose reply is due and pass the header/decode/re-encode checks above; a frame that carries the correlation id of an earlier acks=0 produce of the stream is a violation (the client takes it for the reply to the next request: foreign correlation id and body, every later reply shifted by one); any other foreign frame: the unanswered requests are asked again alone, and if all are fine there the stream itself is reported; a connection that ends mid-stream is not judged as such, the unanswered requests are judged alone. The matrix applies the same rule to its own acks=0 produce cases: a frame before the sentinel's reply is a violation (advertised versions; ready proxy only: the degraded configurations answer one request and close the connection, so no later reply exists there). non-trivial = a reply with a body was received and decoded; for a stream: it ran to the sentinel's reply and at least one reply read after an acks=0 produce was decoded",
 		"read deadline 60 s is a watchdog only (=> inconclusive), except: an advertised request (not acks=0, ready proxy) that gets no complete reply within the watchdog on an open connection is sent once more alone on a fresh connection; a second watchdog on an open connection is reported as advertised_version_not_served",
 		"proxy and broker each have their own in-memory metadata store (no etcd): the partition/group routers are nil, every request goes to the single backend",
 		"in the degraded configurations (not ready, backend down) a missing reply is counted, not judged (read watchdog 10 s there), and only the keys the proxy lists are driven",
 		"acks=0 produce requests always carry at least one topic",
+		"a Produce request with acks=0 has no reply (Kafka protocol): a standard client does not read a frame for it, so the next frame on the connection is what it decodes as the reply to its next request; 'the reply carries the request's correlation id' is judged on that reading (ready proxy only; a not-ready proxy answers an acks=0 produce and closes the connection: counted, not judged)",
+		"without etcd the proxy's routers are nil, so it dials a new backend connection for every produce/fetch/group request and never reuses the pooled one: a frame a broker wrongly writes for an acks=0 produce stays unread on a backend connection that is closed, and cannot reach the client in this leg",
 		"every partition index sent is 0: the broker child cannot be instrumented, and a partition index the topic does not have makes its handler spin forever (found and reported by the broker leg)")
 	scratch := os.Getenv("VERIF_SCRATCH")
 	if scratch == "" {
